@@ -696,6 +696,7 @@ class TermBuilder:
             kt = self._term(sl, at, _seen) if isinstance(sl, ast.expr) and not isinstance(sl, (ast.Slice, ast.Tuple)) else None
             if kt is not None:
                 keytxt = kt.key()
+                return self.mk(f"idx({base.key()})[{keytxt}]", "idx", origins, e, [base, kt], name=keytxt)
         return self.mk(f"idx({base.key()})[{keytxt}]", "idx", origins, e, [base], name=keytxt)
 
     def _is_batch_like(self, base: Poly) -> bool:
